@@ -1,5 +1,5 @@
 (* Correspondence entry point for C12.
-   case = VTup [table1; table2; ops]
+   case = VTup [table1; table2; ops; conv]      (conv: which public calling conventions the harness uses)
      table = VTup [VList names; VList partitions]      partition = VList rows, row = VTup cells
      cell  = VNone | VInt | VFloat | VStr | VBool
      expr  = VTup (VInt tag :: args)                    (tags below)
@@ -91,6 +91,16 @@ Definition dec_key (fuel : nat) (v : val) : option (expr * sdir) :=
 
 Definition FUEL : nat := 24.
 
+Definition dec_flag (v : val) : option bool :=
+  match v with VBool b => Some b | VInt z => Some (negb (z =? 0)) | _ => None end.
+(* the `ascending` argument: absent (VNone), a bool or int scalar, or a list of bools / ints *)
+Definition dec_asc (v : val) : option asc_arg :=
+  match v with
+  | VNone => Some AscAbsent
+  | VList l => option_map AscList (map_opt dec_flag l)
+  | _ => option_map AscScalar (dec_flag v)
+  end.
+
 Fixpoint dec_op (fuel : nat) (v : val) : option op :=
   match fuel with
   | O => None
@@ -106,7 +116,8 @@ Fixpoint dec_op (fuel : nat) (v : val) : option op :=
       | VTup [VInt 7; VList os] => option_map OUnionByName (map_opt (dec_op fu) os)
       | VTup [VInt 8] => Some ODistinct
       | VTup [VInt 9; ns] => option_map ODropDuplicates (dec_names ns)
-      | VTup [VInt 10; VList ks] => option_map OSort (map_opt (dec_key FUEL) ks)
+      | VTup [VInt 10; VList ks; a] =>
+          bind (map_opt (dec_key FUEL) ks) (fun ks' => bind (dec_asc a) (fun a' => Some (OSort ks' a')))
       | VTup [VInt 11; VInt n] => if n <? 0 then None else Some (OLimit (Z.to_nat n))
       | _ => None
       end
@@ -192,7 +203,7 @@ Fixpoint run_steps (t2 : df) (ops : list op) (d : df) (unordered : bool) : optio
 
 Definition run (c : val) : val :=
   match c with
-  | VTup [t1; t2; VList os] =>
+  | VTup [t1; t2; VList os; _] =>   (* 4th component: calling-convention seed, used by the harness only *)
       match dec_table t1, dec_table t2, map_opt (dec_op 4) os with
       | Some d1, Some d2, Some ops =>
           match run_steps d2 ops d1 false with
